@@ -182,3 +182,20 @@ let () =
   register "p13.tx_ref" (function [structs; protos; i; a] -> S (ProtoRender.tx_ref (strs structs) (strs protos) (ifc3 i) (dict a)) | _ -> failwith "arity");
   register "p13.rx_wf" (function [structs; protos; i; a] -> vbool (ProtoRender.rx_wf (strs structs) (strs protos) (ifc3 i) (dict a)) | _ -> failwith "arity");
   register "p13.tx_wf" (function [structs; protos; i; a] -> vbool (ProtoRender.tx_wf (strs structs) (strs protos) (ifc3 i) (dict a)) | _ -> failwith "arity")
+
+(* the whole shipped TEMPLATEStateMachine.py; sigs = [[event; signature; signature with defaults] ...] (interface oracle) *)
+let sigs3 v = List.map (fun p -> match lst p with [n; a; b] -> (str n, (str a, str b)) | _ -> failwith "sigs entry") (lst v)
+let () =
+  register "py.file_ref" (function [tt; structs; protos; msgs; sg; a] ->
+      S (PyRender.py_file_ref (rows tt) (strs structs) (strs protos) (strs msgs) (sigs3 sg) (dict a)) | _ -> failwith "arity");
+  register "py.file_wf" (function [tt; structs; protos; msgs; sg; a] ->
+      vbool (PyRender.py_file_wf (rows tt) (strs structs) (strs protos) (strs msgs) (sigs3 sg) (dict a)) | _ -> failwith "arity");
+  register "e.paren_clean" (function [s] -> S (EngineSM.paren_clean (str s)) | _ -> failwith "arity")
+
+(* any shipped file of the grammar, with the signature oracle *)
+let () =
+  register "d16.shipped_ref" (function [lines; tt; structs; protos; msgs; sg; a] ->
+      (match Parse16.shipped_ref (strs lines) (rows tt) (strs structs) (strs protos) (strs msgs) (sigs3 sg) (dict a) with
+       | Some s -> L [S s] | None -> L []) | _ -> failwith "arity");
+  register "d16.shipped_wf" (function [lines; tt; structs; protos; msgs; sg; a] ->
+      vbool (Parse16.shipped_wf (strs lines) (rows tt) (strs structs) (strs protos) (strs msgs) (sigs3 sg) (dict a)) | _ -> failwith "arity")
